@@ -21,7 +21,7 @@ REGISTRY = {
     },
     "C03": {
         "level": "proof",
-        "modules": ["CoCoVerif.Props.C03"], "theorems": _T["C03"],
+        "modules": ["CoCoVerif.Props.C03", "CoCoVerif.Props.C03Width"], "theorems": _T["C03"],
         "rule": "cases = all short/long branch mnemonics and label,PCR / [label,PCR] operands (1- and 2-byte opcodes) at distances around the 8-bit and 16-bit "
                 "limits forward and backward, label+-k forms, programs with several interdependent PCR statements, random programs; every branch / PCR "
                 "statement is decoded and (next address + displacement) mod 65536 compared with the target",
@@ -47,13 +47,15 @@ REGISTRY = {
     },
     "C18": {
         "level": "proof",
-        "modules": ["CoCoVerif.Props.C18"],
+        "modules": ["CoCoVerif.Props.C18", "CoCoVerif.Props.C18Reloc", "CoCoVerif.Props.C18RelocSrc", "CoCoVerif.Props.C18RelocText",
+                    "CoCoVerif.Props.C18Rename"],
         "theorems": _T["C18"],
         "rule": "cases = generated programs (ORG first, origin >= $100, label references label / label+-n, branches, PCR, data) each assembled in five "
                 "variants: base, origin shifted by D, labels renamed by a bijection, reformatted (white space, comments, mnemonic case), extended by a "
                 "suffix; the implementation's outputs are compared with each other (metamorphic oracle: bytes equal except absolute own-label references "
                 "which move by exactly D; renamed symbols; unchanged prefix) and each variant with the model",
-        "assumptions": ["R1 (relocation) and R2 (renaming) are validated by the metamorphic oracle and the correspondence only; R3 and R4 are theorems"],
+        "assumptions": ["R2 (renaming) is proved up to operand resolution only and otherwise validated by the metamorphic oracle and the correspondence; "
+                        "R1, R3 and R4 are theorems (R1 for origins >= $100, no label*k / label/k, no label-label under PCR)"],
     },
     "C19": {
         "level": "proof",
@@ -105,7 +107,7 @@ REGISTRY = {
     },
     "C01": {
         "level": "proof",
-        "modules": ["CoCoVerif.Props.C01"],
+        "modules": ["CoCoVerif.Props.C01", "CoCoVerif.Props.C01Text"],
         "theorems": _T["C01"],
         "rule": "cases = the statement matrix (every non-pseudo mnemonic x every operand form of the README grammar x 18 boundary values x every literal "
                 "spelling; 73,055 statements, sampled at 6% in the quick tier, complete in the thorough tier) + all TFR/EXG register pairs and PSH/PUL "
@@ -219,10 +221,14 @@ MANIFEST_TEXT = {
         "text": "Lean: C03_diag_iff (a short branch is a diagnostic exactly when its target is out of -128..+127), C03_field / C03_bytes (the stored displacement is "
                 "the sum of the statement sizes between branch and target, negated backward), C03_branch (with no ORG in between: target address = address "
                 "+ size + sext(d8), resp. mod 65536 for long branches — by telescoping sizes into addresses), C03_pcr (a label,PCR operand stores target - "
-                "address - size, reduced mod 65536 in the 16-bit form); C03_Statement_false (branch across an ORG). The invariant '8-bit form only if the "
-                "offset fits' is NOT proved; the former kernel-checked counterexample to it was repaired (fix aafdc4b) and distances are swept by the oracle.",
+                "address - size as a signed distance mod 65536); C03_Statement_false (branch across an ORG). PCR WIDTH (Props/C03Width): C03_size_sound (the size "
+                "loop keeps size <= final size <= max_size), C03_pcr8_width (every statement settled on the 8-bit form has a plain label or label+-number as "
+                "offset, its distance d computed in Z without wrap satisfies -128 <= d <= 127 and the stored field is exactly d), C03_pcr_label (with no ORG "
+                "between statement and target the emitted field reaches the label's address, both widths) - the PCR clause of the full statement; "
+                "C03_pcr_org_counterexample shows the no-ORG hypothesis is necessary. Proving it refuted the statement five times first; each counterexample "
+                "was replayed on /repo and repaired (aafdc4b, 8dc2b21, 0293787, 95bb240, ec1693d/1477b47).",
         "design_ref": "DESIGN.md section 5 C03, section 6 B",
-        "note": "known findings B3, A9, B1 (branch across ORG); the PCR width invariant is validated by sweeps and interacting-PCR generators only",
+        "note": "known findings B3, A9, B1 (branch or PCR reference across an ORG)",
         "technique": "Lean 4 proof (telescoping size sums to address differences; fixOne case analysis) + differential correspondence + decode-and-check-target oracle",
     },
     "C13": {
@@ -249,10 +255,16 @@ MANIFEST_TEXT = {
         "text": "Lean: C18_R3 (white space between fields, comments and mnemonic case do not change what a line parses to: scanLine_render is the canonical-form "
                 "lemma of the line scanner with the exact side condition under which a comment is not swallowed by the operand field), C18_R4 (appending "
                 "statements keeps the statements, symbol table and image of the shorter program as prefixes — proved through every stage incl. the PCR size "
-                "loop by a stuttering simulation). R1 (relocation) and R2 (renaming) are stated (C18_R1_Statement, C18_R2_Statement) and decided by the "
+                "loop by a stuttering simulation). R1 RELOCATION (Props/C18Reloc*, Lemmas/Reloc*): reloc_assign_iff (the moved program is laid out iff the original "
+                "is, every address + D), reloc_fixOne_unmoved / _moved and reloc_bytes_unmoved / _moved (branches, PCR operands, label-label and label-free "
+                "operands emit identical bytes; label, label+k, label-k emit the same bytes with the 16-bit field + D), reloc_finish (symbol table: labels + D, "
+                "EQU unchanged), lifted to parsed programs and source text (C18_R1_parsed, C18_R1_code, C18_R1 on the repaired statement: the literal "
+                "C18_R1_Statement is false because an arbitrary 'label' string can turn the ORG line into a comment - C18_R1_Statement_false); classes with "
+                "no claim are witnessed (reloc_crossing_100: JMP L is 2 bytes below $100; label*k; LEAX B-A,PCR). R2 RENAMING (Props/C18Rename, partial): "
+                "lookup, Value.resolve, buildSymTab and non-indexed resolveOperand commute with an injective renaming; the rest of R2 is decided by the "
                 "metamorphic oracle on the implementation plus the correspondence.",
         "design_ref": "DESIGN.md section 5 C18",
-        "note": "known finding S1 (symbol names with '_' or '@'); R1/R2 not proved (parametricity argument)",
+        "note": "known finding S1 (symbol names with '_' or '@'); R2 proved up to operand resolution only",
         "technique": "Lean 4 proof (scanner canonical form; prefix stability through all passes) + metamorphic oracle on the implementation + differential correspondence",
     },
     "C19": {
@@ -306,8 +318,12 @@ MANIFEST_TEXT = {
                 "auto inc/dec and accumulator forms for X Y U S and their indirect variants; 5/8/16-bit constant offsets; all 100 TFR/EXG pairs; push/pull "
                 "lists) translate+emit yields bytes that the datasheet decoder reads back as exactly that operation and operand, with byte count = size, "
                 "for ALL operand values; (iii) C01_Statement_false and ten C01_finding_* theorems: the full statement is false on the model and "
-                "each excluded region has a kernel-checked witness. The source-text front end (cascade of create_from_str) is tied by the exhaustive "
-                "statement matrix rather than proved.",
+                "each excluded region has a kernel-checked witness; (iv) C01_text_partial / C01_text_rendered (Props/C01Text) — "
+                "the same from the OPERAND TEXT: for every non-pseudo row and every spelling family (decimal / $hex literals as immediates, direct, extended, "
+                "[indirect]; ,R ,R+ ,R++ ,-R ,--R and A,R B,R D,R for X Y U S with their [..] variants; decimal constant offsets of every width) the cascade "
+                "of create_from_str + translate + emit yields the bytes the datasheet decoder reads back (asmOne_eq_encodeText ties this to assembling the "
+                "one-line program); C01_text_16bit_row_offset_not_encoded proves the excluded region A3 in general. Symbols and expressions in operands are "
+                "tied by the statement matrix rather than proved from text.",
         "design_ref": "DESIGN.md section 5 C01, section 6 A",
         "note": "known findings A3-A11, A13, C3 (regions in known_findings.json); trusted: Spec/MC6809*.lean, Lean kernel, correspondence (statement matrix complete in the thorough tier, sampled in quick)",
         "technique": "Lean 4 proof (kernel-evaluated table check + per-addressing-mode encode/decode theorems for all values) + differential correspondence + datasheet-decoder oracle",
